@@ -126,6 +126,11 @@ theorem include_cycle_reported (g : Graph) (root : Nat) :
     ((∃ v, Reach (edge g) root v ∧ ReachPlus (edge g) v v) → validate g root ≠ []) :=
   ⟨validate_kept_acyclic g root, validate_reports_cycle g root⟩
 
+-- non-vacuity: a graph in which the root reaches a cycle exists (a file that includes itself)
+example : ∃ (g : FeaInclude.Graph) (root v : Nat),
+    FeaInclude.Reach (FeaInclude.edge g) root v ∧ FeaInclude.ReachPlus (FeaInclude.edge g) v v :=
+  ⟨[[0]], 0, 0, .refl 0, .single ⟨0, rfl⟩⟩
+
 end Fontc.C13
 
 #print axioms Fontc.C13.lex_terminates
